@@ -679,8 +679,7 @@ def makerandCIJdegreesfixed(inv, outv, seed=None):
                     switch = rng.randint(k)
                 if not (CIJ[edges[0, i], edges[1, switch]] or
                         CIJ[edges[0, switch], edges[1, i]]):
-                    CIJ[edges[0, switch], edges[1, switch]] = 0
-                    CIJ[edges[0, switch], edges[1, i]] = 1
+                    CIJ[edges[0, i], edges[1, switch]] = 1
                     if switch < i:
                         CIJ[edges[0, switch], edges[1, switch]] = 0
                         CIJ[edges[0, switch], edges[1, i]] = 1
